@@ -173,7 +173,8 @@ impl Header {
 
     /// Sets the value of the opcode field.
     pub fn set_opcode(&mut self, opcode: Opcode) {
-        self.inner[2] = self.inner[2] & 0x87 | (opcode.to_int() << 3);
+        self.inner[2] =
+            self.inner[2] & 0x87 | ((opcode.to_int() & 0x0F) << 3);
     }
 
     /// Returns all flags contained in the header.
